@@ -4,6 +4,7 @@
 Usage: tools/agent_prompt2.py <ID> <mechanism index for c> <mechanism index for d>"""
 import json, sys
 pid, ic, idd = sys.argv[1], int(sys.argv[2]), int(sys.argv[3])
+LC, LD = (sys.argv[4].split(",") if len(sys.argv) > 4 else ["c", "d"])
 p = [json.loads(l) for l in open('/verif/properties.jsonl') if json.loads(l)['id'] == pid][0]
 ms = p['anchors']['mechanism']
 mc, md = ms[ic], ms[idd]
@@ -22,17 +23,17 @@ Quantified over: {p['quantifier']['text']}
 Relevant source files: {', '.join(p['anchors']['files'])}
 
 YOUR TASK: produce TWO DIFFERENT, independent changes to the library source (each a separate small patch against the worktree's HEAD, each touching funsor/ source files only, not tests). Each change must live in the mechanism assigned to it:
-  change "c": {mc['name']}  (around {mc['where']})
-  change "d": {md['name']}  (around {md['where']})
+  change "{LC}": {mc['name']}  (around {mc['where']})
+  change "{LD}": {md['name']}  (around {md['where']})
 (line numbers are approximate). For each change:
- 1. the library still imports and the EXISTING test suite still passes with the change applied. Run at least the relevant test files, and finally the whole numpy-backend suite:  cd /tmp/wt/{pid} && /venv/bin/python -m pytest -q -p no:cacheprovider -n 4 --ignore=test/examples --ignore=test/pyro --ignore=test/pyroapi --ignore=test/torch test/    (takes several minutes; the unpatched tree gives 7670 passed, 3859 skipped, 65 xfailed, 2 xpassed - your patched tree must give the same counts, no failures);
+ 1. the library still imports and the EXISTING test suite still passes with the change applied. Run at least the relevant test files, and finally the whole numpy-backend suite:  cd /tmp/wt/{pid} && /venv/bin/python -m pytest -q -p no:cacheprovider -n 4 --ignore=test/examples --ignore=test/pyro --ignore=test/pyroapi --ignore=test/torch test/    (takes several minutes; the unpatched tree gives 7670 passed, 3859 skipped, 64 xfailed, 3 xpassed - your patched tree must give the same counts, no failures);
  2. the change BREAKS the property above: there is a concrete input / sequence of operations for which the property's statement is false with the change and true without it;
  3. the breakage needs something SPECIFIC to manifest - an unusual input, a particular combination of names/sizes/shapes, a multi-step sequence of operations, a fault/exception at a particular point, or two cooperating sites that each look fine alone. It must NOT be something ordinary use would expose at once (the existing tests passing is the minimum bar; prefer bugs that a casual smoke test would also miss). It should look like a plausible developer mistake (off-by-one, wrong variable, missing case, over-eager optimisation, stale cache, swapped operands in a rarely used branch, a 'simplification' that is only valid in the common case, ...), not sabotage with magic constants.
  4. you provide a small demonstration program demo.py (plain Python, no pytest needed, exits non-zero / raises AssertionError when the property is violated and exits 0 otherwise) that FAILS with the change applied and PASSES on the unpatched worktree. Confirm both by actually running it (flip with `git diff > saved.diff; git checkout -- funsor; ...; git apply saved.diff` - never use `git stash`: the stash is shared between all worktrees of /repo and other people are working in theirs).
 
 Deliverables, written to /tmp/seedout/{pid}/ :
-  c/patch.diff  c/demo.py  c/notes.md      (change c)
-  d/patch.diff  d/demo.py  d/notes.md      (change d)
+  {LC}/patch.diff  {LC}/demo.py  {LC}/notes.md      (change {LC})
+  {LD}/patch.diff  {LD}/demo.py  {LD}/notes.md      (change {LD})
 patch.diff must be produced with `git -C /tmp/wt/{pid} diff` (so it applies with `git apply` at the repository root, paths like a/funsor/terms.py). notes.md: which part of the property it breaks, what exactly is needed for it to manifest, and the exact test-suite command you ran with its final summary line. When you are done, leave nothing behind: `git -C /repo worktree remove --force /tmp/wt/{pid}`.
 
 In your final answer give a 10-line summary: for each change, the file/function touched, the trigger needed, and the pytest summary line you observed.""")
